@@ -4,10 +4,13 @@ from ledger_common import ledger_config
 CONFIG = ledger_config("C07", ["Sky/Props/C07.lean"], dict(
     text="Lean 4 theorems, all histories, both node configurations: the stored unspent checksum equals the xor of the snapshot hashes of the "
          "current unspent set, and the address-index height and parsed-history sequence equal the head sequence (derived_after_run); "
-         "pool operations never change any derived structure (pool_ops_keep_derived). The per-address index, address count, history "
+         "pool operations never change any derived structure (pool_ops_keep_derived); the per-address unspent index lists for every "
+         "address exactly the ids of that address's unspent outputs (addr_index_exact_after_run, from the two adjust passes of "
+         "UnspentPool.ProcessBlock); replaying the stored blocks from an empty database yields exactly the node's unspent set, "
+         "checksum, address index and complete history (rebuild_from_blocks_same). The address count, history "
          "buckets (including which block/transaction spent each output) and the chain queries are carried by the correspondence: all of "
          "them are dumped from the real node after EVERY op and recomputed by the Lean model.",
-    note="partial: index/history equalities are tied differentially, not proved; balance views are compared through the unspent set and pool. "
+    note="partial: the query views computed from the history buckets are tied differentially, not proved; balance views are compared through the unspent set and pool. "
          "Rebuild paths (history reset, index rebuild) are exercised by C08's restart states.",
-    technique="Lean 4 invariant proof (checksum, markers) + whole-state differential correspondence for indexes and history",
+    technique="Lean 4 invariant proof (checksum, markers, per-address index) + whole-state differential correspondence for history buckets and query views",
 ))
